@@ -330,37 +330,65 @@ def rule_concat(ctx):
     f = ctx.func(COL, "concat_collocations")
     flow = Flow(f)
     A = _assigns(flow)
-    init = {n: norm(A[n][0].value) for n in ("primary_size", "secondary_size") if n in A}
-    ctx.ob("concat_collocations.init", init == {"primary_size": "0", "secondary_size": "0"}, "initial offsets: %s" % init, "both 0", node=f.node, func=f)
     outer = [st for st in flow.stmts if isinstance(st, ast.For) and norm(st.iter) == f.params[0]]
     if not outer:
         raise AnalysisError("concat_collocations: loop over the datasets not found")
     lp = outer[0]
     obj = norm(lp.target)
+    # the two shifts of the pair rows; their addends are the running offsets
     shifts = {}
     for st in walk_no_nested(lp):
-        if isinstance(st, ast.AugAssign) and isinstance(st.target, ast.Subscript) and isinstance(st.op, ast.Add) and "pairs" in norm(st.target):
-            shifts[norm(st.target.slice)] = (norm(st.value), st)
-    ok = {k: v[0] for k, v in shifts.items()} == {"(0, :)": "primary_size", "(1, :)": "secondary_size"} \
-        or {k: v[0] for k, v in shifts.items()} == {"0": "primary_size", "1": "secondary_size"}
-    ctx.ob("concat_collocations.shift", ok, "shifts: %s" % {k: v[0] for k, v in shifts.items()},
-           "pairs[0, :] += primary_size; pairs[1, :] += secondary_size", node=list(shifts.values())[0][1] if shifts else lp, func=f)
-    # accumulation: AugAssign += obj.dims[<group>/collocation], at the end of the outer loop body (after the inner loop)
+        if isinstance(st, ast.AugAssign) and isinstance(st.target, ast.Subscript) and isinstance(st.op, ast.Add) \
+                and "pairs" in norm(flow.resolve(st.target.value, at=st, depth=2)):
+            shifts[norm(st.target.slice).replace(" ", "")] = (st.value, st)
+    rows = {}
+    for k, (v, st) in shifts.items():
+        row = {"(0,:)": 0, "0": 0, "(1,:)": 1, "1": 1}.get(k)
+        if row is None or not isinstance(v, ast.Name):
+            raise AnalysisError("concat_collocations: shift %s of the pair rows not understood" % norm(st))
+        rows[row] = v.id
+    if set(rows) != {0, 1}:
+        if not shifts:
+            ctx.ob("concat_collocations.shift", False, "no `pairs[row, :] += offset` in the loop over the datasets",
+                   "pairs[0, :] += primary offset; pairs[1, :] += secondary offset", node=lp, func=f)
+            return
+        raise AnalysisError("concat_collocations: expected one shift of row 0 and one of row 1")
+    P, S = rows[0], rows[1]
+    # which group each offset counts: its accumulation statement
     acc = {}
     for k, st in enumerate(lp.body):
         if isinstance(st, ast.AugAssign) and isinstance(st.target, ast.Name) and isinstance(st.op, ast.Add):
-            acc[st.target.id] = (norm(st.value), k, st)
-        elif isinstance(st, ast.Assign) and isinstance(st.targets[0], ast.Name) and st.targets[0].id in ("primary_size", "secondary_size"):
-            acc[st.targets[0].id] = ("= " + norm(st.value), k, st)
-    inner_k = [k for k, st in enumerate(lp.body) if isinstance(st, ast.For)]
-    want = {"primary_size": "%s.dims[f'{primary}/collocation']" % obj, "secondary_size": "%s.dims[f'{secondary}/collocation']" % obj}
-    alt = {"primary_size": "%s.sizes[f'{primary}/collocation']" % obj, "secondary_size": "%s.sizes[f'{secondary}/collocation']" % obj}
-    got = {n: v[0] for n, v in acc.items()}
-    okacc = got in (want, alt)
-    ctx.ob("concat_collocations.accumulate", okacc, "size updates: %s" % got,
+            acc[st.target.id] = (st.value, k, st, "+=")
+        elif isinstance(st, ast.Assign) and isinstance(st.targets[0], ast.Name) and st.targets[0].id in (P, S):
+            acc[st.targets[0].id] = (st.value, k, st, "=")
+
+    def group_of(v, at_):
+        """obj.dims[<key>] / obj.sizes[<key>] -> canonical key text"""
+        if isinstance(v, ast.Subscript) and norm(v.value) in ("%s.dims" % obj, "%s.sizes" % obj):
+            key = v.slice
+            # a look-up in a literal table: table[name] -> the entry
+            if isinstance(key, ast.Subscript) and isinstance(key.value, ast.Name):
+                d = flow.single_def_value(key.value.id, at_)
+                if d and isinstance(d[0], ast.Dict):
+                    for kk, vv in zip(d[0].keys, d[0].values):
+                        if kk is not None and norm(kk) == norm(key.slice):
+                            key = vv
+            return norm(flow.resolve(key, at=at_, depth=1, stop=("primary", "secondary"))).replace('"', "'")
+        return None
+    init = {}
+    for n_ in (P, S):
+        ds = [d for d in flow.defs(n_, lp) if d != "param" and not any(d is x for x in ast.walk(lp))]
+        init[n_] = norm(ds[0].value) if len(ds) == 1 and isinstance(ds[0], ast.Assign) else None
+    ctx.ob("concat_collocations.init", init == {P: "0", S: "0"}, "initial offsets: %s" % init, "both 0", node=f.node, func=f)
+    got = {n_: (acc[n_][3], group_of(acc[n_][0], acc[n_][2])) if n_ in acc else None for n_ in (P, S)}
+    ok = got == {P: ("+=", "f'{primary}/collocation'"), S: ("+=", "f'{secondary}/collocation'")}
+    ctx.ob("concat_collocations.shift", ok, "row 0 += %s, row 1 += %s; %s counts %s, %s counts %s" % (P, S, P, got[P], S, got[S]),
+           "pairs[0, :] += number of primary points so far; pairs[1, :] += number of secondary points so far", node=shifts[list(shifts)[0]][1], func=f)
+    ctx.ob("concat_collocations.accumulate", ok, "size updates: %s" % got,
            "primary_size += size of the primary group of this dataset; secondary_size += size of its secondary group (accumulated, not overwritten)",
-           node=list(acc.values())[0][2] if acc else lp, func=f)
-    after = bool(inner_k) and all(v[1] > max(inner_k) for v in acc.values()) and bool(acc)
+           node=acc[P][2] if P in acc else lp, func=f)
+    inner_k = [k for k, st in enumerate(lp.body) if any(x is shifts[list(shifts)[0]][1] for x in ast.walk(st))]
+    after = bool(inner_k) and all(acc[n_][1] > max(inner_k) for n_ in (P, S) if n_ in acc) and P in acc and S in acc
     ctx.ob("concat_collocations.order", after, "size updates after the shift loop: %s" % after,
            "the offsets of dataset k are the sizes of datasets 0..k-1: updated after use", node=lp, func=f)
     # groups concatenated along their own dimension
